@@ -292,6 +292,7 @@ pub struct SharedRun {
     pub native_faults_fired: Vec<bool>,
     pub gcs_inside: u64,
     pub log: String,
+    pub over_budget: bool,
 }
 
 pub fn run_shared(h: &History, seed: u64) -> SharedRun {
@@ -304,7 +305,7 @@ pub fn run_shared(h: &History, seed: u64) -> SharedRun {
         None => SchedMode::Never,
     };
     let sched = ex.ctx.install_sched(Sched::new(mode, AuditMode::None, Rng::stream(seed, "sched")));
-    let mut r = SharedRun { outs: Vec::new(), resolved: Vec::new(), limits: Vec::new(), depths: Vec::new(), import_faults_fired: Vec::new(), native_faults_fired: Vec::new(), gcs_inside: 0, log: String::new() };
+    let mut r = SharedRun { outs: Vec::new(), resolved: Vec::new(), limits: Vec::new(), depths: Vec::new(), import_faults_fired: Vec::new(), native_faults_fired: Vec::new(), gcs_inside: 0, log: String::new(), over_budget: false };
     for (i, op) in h.ops.iter().enumerate() {
         r.limits.push(ex.max_stack);
         if let Ok(mut s) = sched.try_borrow_mut() {
@@ -315,6 +316,9 @@ pub fn run_shared(h: &History, seed: u64) -> SharedRun {
         let (out, res) = ex.step(i, op);
         writeln!(r.log, "op{i} {:?} fault={:?} -> {}", op.req, op.fault, out.short()).unwrap();
         let stop = out.is_panic();
+        if out.is_budget() {
+            r.over_budget = true;
+        }
         r.outs.push(out);
         r.resolved.push(res);
         r.depths.push(sched.try_borrow().map(|s| s.stats.max_trace_len).unwrap_or(0));
@@ -426,7 +430,9 @@ impl<'p, 'h> Fresh<'p, 'h> {
 
 fn fresh_outcome(h: &History, resolved: &[Resolved], r: usize, limit: usize) -> Result<Out, String> {
     let arena = Arena::new();
-    let ctx = Ctx::new(&arena, &h.world);
+    let mut ctx = Ctx::new(&arena, &h.world);
+    // no collections, but the step budget applies to reference runs as well
+    ctx.install_sched(Sched::new(SchedMode::Never, AuditMode::None, Rng::from_seed(0)));
     let mut f = Fresh { ctx, h, resolved, thunks: HashMap::new(), values: HashMap::new() };
     // prerequisites are built with ample head-room, the request itself under `limit`
     let res = &resolved[r];
@@ -451,10 +457,13 @@ fn fresh_outcome(h: &History, resolved: &[Resolved], r: usize, limit: usize) -> 
         return Err(m);
     }
     f.ctx.program.set_max_stack(limit);
-    match f.request(r) {
+    let out = match f.request(r) {
+        Ok((o, _)) if o.is_budget() => Err("step budget exceeded on the fresh state".to_string()),
         Ok((o, _)) => Ok(o),
         Err(Inconclusive(m)) => Err(m),
-    }
+    };
+    f.ctx.remove_sched();
+    out
 }
 
 // ---------------------------------------------------------------------------
@@ -494,6 +503,10 @@ pub struct JudgeStats {
 }
 
 pub fn judge(h: &History, run: &SharedRun, st: &mut JudgeStats) -> Option<Failure> {
+    if run.over_budget {
+        st.inconclusive += 1;
+        return None;
+    }
     // which shared thunks did earlier aborted requests start? (producer ids of thunks they evaluated)
     let mut aborted_producers: BTreeSet<usize> = BTreeSet::new();
     let mut eval_count: BTreeMap<usize, u32> = BTreeMap::new();
